@@ -251,11 +251,14 @@ Qed.
 Ltac use_ih :=
   repeat match goal with
   | Hc : ctx_ok ?v _ _, E : ttoks _ _ _ = Ok ?a |- _ =>
-      let X := fresh "X" in assert (X : ex v a) by (eauto with exdb); clear E
+      let X := fresh "X" in
+      assert (X : ex v a) by (match goal with IH : _ |- _ => eapply IH; [|exact E]; solve [eauto with exdb] end); clear E
   | Hc : ctx_ok ?v _ _, E : ttoks_list _ _ _ = Ok ?a |- _ =>
-      let X := fresh "X" in assert (X : Forall (ex v) a) by (eauto with exdb); clear E
+      let X := fresh "X" in
+      assert (X : Forall (ex v) a) by (match goal with IH : _ |- _ => eapply IH; [|exact E]; solve [eauto with exdb] end); clear E
   | Hc : ctx_ok ?v _ _, E : ttoks_whens _ _ _ = Ok ?a |- _ =>
-      let X := fresh "X" in assert (X : Forall (ex v) a) by (eauto with exdb); clear E
+      let X := fresh "X" in
+      assert (X : Forall (ex v) a) by (match goal with IH : _ |- _ => eapply IH; [|exact E]; solve [eauto with exdb] end); clear E
   end.
 
 Lemma ttoks_exact_all : (forall t, Et t) /\ (forall l, El l) /\ (forall l, Ew l) /\ (forall o, Eo o).
@@ -322,3 +325,161 @@ Qed.
 
 Theorem ttoks_exact : forall t c og v ts, ctx_ok v og c -> ttoks c og t = Ok ts -> Forall (exact_tok v) ts.
 Proof. exact (proj1 ttoks_exact_all). Qed.
+
+(* ---------- 3. quote-parametricity: the erased token list does not depend on quotes / AS / dialect ---------- *)
+Definition eparen (b : bool) (e : list etok) : list etok := if b then EText "(" :: e ++ [EText ")"] else e.
+Fixpoint ejoin (sep : string) (l : list (list etok)) : list etok :=
+  match l with
+  | [] => []
+  | [x] => x
+  | x :: r => x ++ EText sep :: ejoin sep r
+  end.
+Definition ealias (r : erole) (alias : option string) : list etok :=
+  match alias with Some a => [EId r a] | None => [] end.
+
+Lemma erase_nil : erase (@nil dtok) = [].
+Proof. reflexivity. Qed.
+Lemma erase_nil' : erase (@nil (bool * atok)) = [].
+Proof. reflexivity. Qed.
+Lemma erase_cons t r : erase (t :: r) = erase1 t ++ erase r.
+Proof. reflexivity. Qed.
+Lemma erase_app a b : erase (a ++ b) = erase a ++ erase b.
+Proof. unfold erase. apply flat_map_app. Qed.
+Lemma erase_tjoin sep l : erase (tjoin sep l) = ejoin sep (map erase l).
+Proof.
+  induction l as [|x r IH]; [reflexivity|]. destruct r as [|y r'].
+  - reflexivity.
+  - change (tjoin sep (x :: y :: r')) with (x ++ T sep :: tjoin sep (y :: r')).
+    rewrite erase_app, erase_cons, IH. reflexivity.
+Qed.
+Lemma erase_tparen b ts : erase (tparen b ts) = eparen b (erase ts).
+Proof. destruct b; cbn [tparen eparen]; [|reflexivity]. rewrite erase_cons, erase_app. reflexivity. Qed.
+Lemma erase_vparen b ts : erase (vparen b true ts) = erase ts.
+Proof. destruct b; cbn [vparen]; [|reflexivity]. rewrite erase_cons, erase_app. cbn. apply app_nil_r. Qed.
+Lemma erase_vparen_f b ts : erase (vparen b false ts) = eparen b (erase ts).
+Proof. destruct b; cbn [vparen eparen]; [|reflexivity]. rewrite erase_cons, erase_app. reflexivity. Qed.
+Lemma erase_falias r og ts alias qc aqc kw : erase (falias r og ts alias qc aqc kw) = erase ts ++ ealias (erole_of r) alias.
+Proof. destruct alias as [a|]; cbn [falias ealias]; [|symmetry; apply app_nil_r]. rewrite erase_app. reflexivity. Qed.
+Lemma erase_alias_toks c og qc ts alias : erase (alias_toks c og qc ts alias) = erase ts ++ ealias EAlias alias.
+Proof. apply erase_falias. Qed.
+Lemma erase_field c og name tbl :
+  erase (field_toks c og name tbl) =
+  match tbl with
+  | Some tb => if wn c || truthy_ostr (talias tb) then [EId EIdent (table_name tb); EText "."; EId EIdent name] else [EId EIdent name]
+  | None => [EId EIdent name] end.
+Proof. unfold field_toks. destruct tbl as [tb|]; [destruct (wn c || truthy_ostr (talias tb))|]; reflexivity. Qed.
+Lemma erase_mark_group ts : erase (mark_group ts) = [].
+Proof. induction ts as [|t r IH]; [reflexivity|]. cbn [mark_group map]. rewrite erase_cons. exact IH. Qed.
+
+#[export] Hint Rewrite erase_app erase_tjoin erase_tparen erase_vparen erase_vparen_f erase_alias_toks erase_falias erase_field
+  erase_mark_group erase_cons erase_nil erase_nil' : era.
+
+Lemma bind_rel {A A' B B'} (gA : A -> A') (gB : B -> B') (x x' : res A) (f f' : A -> res B) :
+  rmap gA x = rmap gA x' ->
+  (forall a a', gA a = gA a' -> rmap gB (f a) = rmap gB (f' a')) ->
+  rmap gB (bind x f) = rmap gB (bind x' f').
+Proof.
+  intros Hx Hf. destruct x as [a|e], x' as [a'|e']; cbn [rmap bind] in *; try discriminate.
+  - apply Hf. congruence.
+  - congruence.
+Qed.
+
+Lemma csim_refl c : csim c c.
+Proof. repeat split. Qed.
+Lemma csim_set_wa c c' b : csim c c' -> csim (set_wa c b) (set_wa c' b).
+Proof. intros (H1 & H2 & H3 & H4). repeat split; assumption. Qed.
+Lemma csim_set_subq c c' b : csim c c' -> csim (set_subq c b) (set_subq c' b).
+Proof. intros (H1 & H2 & H3 & H4). repeat split; assumption. Qed.
+Lemma csim_set_subc c c' b : csim c c' -> csim (set_subc c b) (set_subc c' b).
+Proof. intros (H1 & H2 & H3 & H4). repeat split; assumption. Qed.
+Lemma csim_set_wn c c' b : csim c c' -> csim (set_wn c b) (set_wn c' b).
+Proof. intros (H1 & H2 & H3 & H4). repeat split; assumption. Qed.
+Lemma csim_fctx c c' : csim c c' -> csim (fctx c) (fctx c').
+Proof. intros (H1 & H2 & H3 & H4). repeat split; assumption. Qed.
+#[export] Hint Resolve csim_refl csim_set_wa csim_set_subq csim_set_subc csim_set_wn csim_fctx : exdb.
+
+Lemma erase_array d d' body body' :
+  erase body = erase body' ->
+  erase (if is_pg d
+         then match tflat body with EmptyString => V "'{}'" :: body | _ => V "ARRAY[" :: body ++ [V "]"] end
+         else V "[" :: body ++ [V "]"]) =
+  erase (if is_pg d'
+         then match tflat body' with EmptyString => V "'{}'" :: body' | _ => V "ARRAY[" :: body' ++ [V "]"] end
+         else V "[" :: body' ++ [V "]"]).
+Proof.
+  intros H.
+  assert (L : forall dd b, erase (if is_pg dd
+         then match tflat b with EmptyString => V "'{}'" :: b | _ => V "ARRAY[" :: b ++ [V "]"] end
+         else V "[" :: b ++ [V "]"]) = erase b).
+  { intros dd b. destruct (is_pg dd); [destruct (tflat b)|]; rewrite erase_cons, ?erase_app; cbn; rewrite ?app_nil_r; reflexivity. }
+  rewrite !L. exact H.
+Qed.
+
+Definition Rt (t : term) := forall c c' og og', csim c c' -> rmap erase (ttoks c og t) = rmap erase (ttoks c' og' t).
+Definition Rl (l : tlist) := forall c c' og og', csim c c' ->
+  rmap (map erase) (ttoks_list c og l) = rmap (map erase) (ttoks_list c' og' l).
+Definition Rw (l : wlist) := forall c c' og og', csim c c' ->
+  rmap (map erase) (ttoks_whens c og l) = rmap (map erase) (ttoks_whens c' og' l).
+Definition Ro (o : oterm) := match o with ONone => True | OSome t => Rt t end.
+
+Ltac era_fin :=
+  cbn [rmap]; f_equal; autorewrite with era; cbn [erase1 fst snd T V erole_of app];
+  repeat match goal with H : erase _ = erase _ |- _ => rewrite H; clear H end;
+  repeat match goal with H : map erase _ = map erase _ |- _ => rewrite H; clear H end;
+  try reflexivity.
+Ltac bnd IH := eapply (bind_rel erase); [apply IH; auto with exdb|intros ? ? ?].
+Ltac bndl IH := eapply (bind_rel (map erase)); [apply IH; auto with exdb|intros ? ? ?].
+
+Lemma ttoks_erase_all : (forall t, Rt t) /\ (forall l, Rl l) /\ (forall l, Rw l) /\ (forall o, Ro o).
+Proof.
+  apply term_all_ind'; unfold Rt, Rl, Rw, Ro.
+  - (* TField *) intros name tbl alias c c' og og' (Hwa & Hwn & Hsq & Hsc). cbn [ttoks]. rewrite Hwa.
+    destruct (wa c'); era_fin; rewrite Hwn; reflexivity.
+  - (* TStar *) intros tbl c c' og og' (Hwa & Hwn & Hsq & Hsc). cbn [ttoks rmap]. f_equal. rewrite Hwn.
+    destruct tbl as [tb|]; [destruct (wn c' || truthy_ostr (talias tb))|]; reflexivity.
+  - intros s alias c c' og og' Hs. cbn [ttoks]. era_fin.
+  - intros z alias c c' og og' Hs. cbn [ttoks]. era_fin.
+  - intros b sl alias c c' og og' Hs. cbn [ttoks]. era_fin.
+  - intros alias c c' og og' Hs. cbn [ttoks]. era_fin.
+  - intros txt alias c c' og og' Hs. cbn [ttoks]. era_fin.
+  - intros raw alias c c' og og' Hs. cbn [ttoks]. era_fin.
+  - intros txt c c' og og' Hs. reflexivity.
+  - (* TNeg *) intros t IH c c' og og' Hs. cbn [ttoks]. bnd IH. era_fin.
+  - (* TArith *) intros op l IHl r IHr alias c c' og og' Hs. cbn [ttoks]. bnd IHl. bnd IHr.
+    destruct Hs as (Hwa & _). rewrite Hwa. destruct (wa c'); era_fin.
+  - (* TBasic *) intros cm l IHl r IHr alias c c' og og' Hs. cbn [ttoks]. bnd IHl. bnd IHr.
+    destruct Hs as (Hwa & _). rewrite Hwa. destruct (wa c'); era_fin.
+  - (* TCplx *) intros bo l IHl r IHr alias c c' og og' Hs. cbn [ttoks]. bnd IHl. bnd IHr.
+    destruct Hs as (_ & _ & _ & Hsc). rewrite Hsc. era_fin.
+  - (* TIn *) intros t IHt cont IHc negated alias c c' og og' Hs. cbn [ttoks]. bnd IHt. bnd IHc. era_fin.
+  - (* TBetween *) intros t IHt lo IHlo hi IHhi alias c c' og og' Hs. cbn [ttoks]. bnd IHt. bnd IHlo. bnd IHhi. era_fin.
+  - (* TBitAnd *) intros t IHt v alias c c' og og' Hs. cbn [ttoks]. bnd IHt. era_fin.
+  - (* TIsNull *) intros t IHt alias c c' og og' Hs. cbn [ttoks]. bnd IHt. era_fin.
+  - (* TNotNull *) intros t IHt alias c c' og og' Hs. cbn [ttoks]. bnd IHt. era_fin.
+  - (* TNot *) intros t IHt alias c c' og og' Hs. cbn [ttoks]. bnd IHt. era_fin.
+  - (* TAll *) intros t IHt alias c c' og og' Hs. cbn [ttoks]. bnd IHt. era_fin.
+  - (* TEmpty *) reflexivity.
+  - (* TCase *) intros ws IHw els IHe alias c c' og og' Hs. cbn [ttoks].
+    destruct ws as [|cr vv r]; [reflexivity|]. bndl IHw.
+    eapply (bind_rel erase).
+    + destruct els as [|t']; [reflexivity|]. cbn in IHe. bnd IHe. era_fin.
+    + intros ? ? ?. destruct Hs as (Hwa & _). rewrite Hwa. destruct (wa c'); era_fin.
+  - (* TFunc *) intros name args IHa special alias c c' og og' Hs. cbn [ttoks]. bndl IHa.
+    destruct Hs as (Hwa & _). rewrite Hwa. destruct (wa c'); era_fin.
+  - (* TTuple *) intros vs IHv alias c c' og og' Hs. cbn [ttoks]. bndl IHv. era_fin.
+  - (* TArray *) intros vs IHv alias c c' og og' Hs. cbn [ttoks]. bndl IHv.
+    cbn [rmap]. f_equal. rewrite !erase_alias_toks. f_equal. apply erase_array. rewrite !erase_tjoin. congruence.
+  - (* TSub *) intros col tbl alias c c' og og' (Hwa & Hwn & Hsq & Hsc). cbn [ttoks]. rewrite Hwa, Hsq.
+    destruct (wa c'); era_fin.
+  - (* TNil *) reflexivity.
+  - (* TCons *) intros t IHt r IHr c c' og og' Hs. cbn [ttoks_list]. bnd IHt. bndl IHr. cbn [rmap map]. congruence.
+  - (* WNil *) reflexivity.
+  - (* WCons *) intros cr IHc vv IHv r IHr c c' og og' Hs. cbn [ttoks_whens]. bnd IHc. bnd IHv. bndl IHr.
+    cbn [rmap map]. apply f_equal. apply f_equal2; [|assumption].
+    autorewrite with era; cbn [erase1 fst snd T V app]. congruence.
+  - exact I.
+  - intros t IH. exact IH.
+Qed.
+
+Theorem ttoks_erase : forall t c c' og og', csim c c' -> erase_res (ttoks c og t) = erase_res (ttoks c' og' t).
+Proof. exact (proj1 ttoks_erase_all). Qed.
